@@ -26,6 +26,18 @@ var c07PercentPattern = regexp.MustCompile(fmt.Sprintf(
 	"%s(?i:(?P<%s>%s)|(?P<%s>%s)|{(?:(?P<%s>%s)}|(?P<%s>)))",
 	"%", "escaped", "%", "named", "[_a-z][_a-z0-9]*", "braced", "[_a-z][_a-z0-9]*(?::?[-+?](.*))?", "invalid"))
 
+// three patterns that are not "the default format with another delimiter" (mirrored by matchStrictG / matchAngleG /
+// matchDblG in lean/ComposeVerif/Model/TemplateOpts.lean)
+var (
+	c07StrictPattern = regexp.MustCompile(`\$(?i:(?P<escaped>\$)|(?P<named>[_a-z][_a-z0-9]*)|{(?:(?P<braced>[_a-z][_a-z0-9]*)}|(?P<invalid>)))`)
+	c07AnglePattern  = regexp.MustCompile(`<<(?P<named>[a-z]+)>>|@(?P<escaped>@)`)
+	// a match that contains `}` before its end: DefaultReplacementAppliedFunc truncates it at the first balanced
+	// `}` and the re-match fails — matchGroups indexes a nil slice (the model's `panic matchGroups`)
+	c07DblPattern = regexp.MustCompile(`\$\{(?P<braced>[a-z]+)\}\}|\$(?P<escaped>\$)`)
+)
+
+var c07PatternCfgs = []string{"strict", "angle", "dbl"}
+
 func c07OptSubs(s string, m template.Mapping) (string, bool, error) {
 	if !strings.Contains(s, ":-") {
 		return "", false, nil
@@ -56,8 +68,15 @@ var c07Cfgs = []string{"default", "subs", "repl", "percent", "percent+subs", "pe
 
 func c07Options(name string) []template.Option {
 	opts := []template.Option{template.WithoutLogging}
-	if strings.HasPrefix(name, "percent") {
+	switch {
+	case strings.HasPrefix(name, "percent"):
 		opts = append(opts, template.WithPattern(c07PercentPattern))
+	case name == "strict":
+		opts = append(opts, template.WithPattern(c07StrictPattern))
+	case name == "angle":
+		opts = append(opts, template.WithPattern(c07AnglePattern))
+	case name == "dbl":
+		opts = append(opts, template.WithPattern(c07DblPattern))
 	}
 	if name == "subs" || name == "percent+subs" || name == "subs+repl" {
 		opts = append(opts, template.WithSubstitutionFunction(c07OptSubs))
@@ -81,6 +100,30 @@ func init() {
 		},
 		DriverOp: "substOpts",
 		Judge: func(args, real, drv json.RawMessage) *core.Verdict {
+			var rp struct {
+				Panic string `json:"panic"`
+			}
+			var dp struct {
+				Panic string `json:"panic"`
+			}
+			json.Unmarshal(real, &rp)
+			json.Unmarshal(drv, &dp)
+			if rp.Panic != "" || dp.Panic != "" {
+				// a custom pattern can make the re-match of the truncated text fail: the real function panics in
+				// matchGroups and the model says `panic matchGroups`.  That is an agreement of model and code under a
+				// caller-supplied pattern, not a violation of C07 (for the default pattern: subst_never_panics).
+				var a optsArgs
+				json.Unmarshal(args, &a)
+				if strings.Contains(rp.Panic, "matchGroups") && dp.Panic == "matchGroups" && a.Cfg != "default" {
+					return nil
+				}
+				if a.Cfg == "default" {
+					if v := core.CrashVerdict(real); v != nil {
+						return v
+					}
+				}
+				return core.Disagree(fmt.Sprintf("panic outcome differs: real %q, model %q", rp.Panic, dp.Panic))
+			}
 			if v := core.CrashVerdict(real); v != nil {
 				return v
 			}
@@ -113,6 +156,34 @@ func runC07Opts(ctx *core.Ctx, rnd func(depth int, inArg bool) []seg) {
 		}
 	}
 	rec("", L)
+	// the three other patterns: exhaustive strings over the characters they look at
+	alpha2 := []string{"$", "{", "}", "<", ">", "@", "a", "b", "A", "-"}
+	envs2 := []map[string]string{{"a": "v", "ab": "w", "A": "V"}, {}}
+	var rec2 func(prefix string, n int)
+	rec2 = func(prefix string, n int) {
+		for _, c := range c07PatternCfgs {
+			for _, env := range envs2 {
+				ctx.Add("substOpts", optsArgs{T: prefix, Env: env, Cfg: c})
+			}
+		}
+		ctx.Count(fmt.Sprintf("opts-patterns-exhaustive-len-%d", len(prefix)))
+		if n == 0 {
+			return
+		}
+		for _, a := range alpha2 {
+			rec2(prefix+a, n-1)
+		}
+	}
+	rec2("", L)
+	for i := 0; i < ctx.Pick(4000, 100000); i++ {
+		toks := []string{"$", "${", "}", "}}", "<<", ">>", "@", "@@", "$$", "a", "ab", "b", "A", "-", ":-", " ", "\n", "{"}
+		var b strings.Builder
+		for j := 0; j < 1+ctx.Rng.Intn(12); j++ {
+			b.WriteString(toks[ctx.Rng.Intn(len(toks))])
+		}
+		ctx.Count("opts-patterns-random")
+		ctx.Add("substOpts", optsArgs{T: b.String(), Env: envs2[ctx.Rng.Intn(2)], Cfg: c07PatternCfgs[ctx.Rng.Intn(3)]})
+	}
 	// grammar-shaped text (also with `%` as the delimiter) under every configuration
 	for i := 0; i < ctx.Pick(6000, 150000); i++ {
 		t := renderSegs(rnd(3, false))
